@@ -44,6 +44,9 @@ def _dispatch(prop, t):
         if prop == "C18":
             from . import reflect
             extra = reflect.check_kinds
+        if prop == "C01":
+            from . import suite_traces
+            extra = suite_traces.run
         return check_expr.check(prop, t, fams, check_expr.RULES[prop], check_expr.ASSUME, extra=extra)
     if prop == "C13":
         from . import check_pipelines
@@ -68,6 +71,10 @@ def _replay(path):
     if kind == "runtime":
         from . import check_runtime
         return check_runtime.replay_file(doc)
+    if kind == "suite-trace":
+        print("replay: re-run `bin/check C01` (the trace is recorded from the repository's own test session); "
+              "rejected at event %s of test %s: %s" % (doc["rejected_at"], doc["test"], doc["events"][-1:]))
+        return 1
     if kind == "pickle-probe":
         import pickle
         from . import common, picklelib
